@@ -25,9 +25,17 @@ def main():
         mod = importlib.import_module('props.' + pid.lower())
         core.repo_python_path()
         if a.replay:
-            rc = mod.replay(chk, a.replay)
-            chk.cleanup()
-            return rc
+            import json
+            rp = json.load(open(a.replay))
+            print('replaying %s: kind=%s %s' % (a.replay, rp.get('kind'), rp.get('theorem_or_tie')))
+            print('case:', json.dumps(rp.get('case'))[:2000])
+            if hasattr(mod, 'replay'):
+                rc = mod.replay(chk, rp)
+                chk.cleanup()
+                return rc
+            # default: every case derives from the seed, so re-running the check with the
+            # recorded seed and tier reproduces the recorded case first
+            chk = core.Check(pid, tier, int(rp.get('seed', seed)))
         mod.run(chk)
         return chk.finish()
     except core.Infra as e:
